@@ -382,10 +382,17 @@ func (k *Keeper) ApplyMessageWithConfig(ctx sdk.Context,
 	if contractCreation {
 		// take over the nonce management from evm:
 		// - reset sender's nonce to msg.Nonce() before calling evm.
-		// - increase sender's nonce by one no matter the result.
+		// - increase sender's nonce by one no matter the result, but never move it back: the ante handler has
+		//   already advanced the sequence past every message of the transaction, and putting it back to
+		//   msg.Nonce()+1 would make the later messages of a multi-message transaction valid a second time.
+		nonceOnEntry := stateDB.GetNonce(sender.Address())
 		stateDB.SetNonce(sender.Address(), msg.Nonce())
 		ret, _, leftoverGas, vmErr = evm.Create(sender, msg.Data(), leftoverGas, msg.Value())
-		stateDB.SetNonce(sender.Address(), msg.Nonce()+1)
+		nonceAfter := msg.Nonce() + 1
+		if nonceOnEntry > nonceAfter {
+			nonceAfter = nonceOnEntry
+		}
+		stateDB.SetNonce(sender.Address(), nonceAfter)
 	} else {
 		ret, leftoverGas, vmErr = evm.Call(sender, *msg.To(), msg.Data(), leftoverGas, msg.Value())
 	}
